@@ -839,6 +839,8 @@ class ArrayOf(DataType):
         self.check_type(value)
         try:
             if previous:
+                # previous may be shorter than value: do not truncate the result
+                previous = list(previous) + [None] * (len(value) - len(previous))
                 return tuple(self.members.validate(v, p) for v, p in zip(value, previous))
             return tuple(self.members.validate(v) for v in value)
         except Exception as e:
